@@ -100,3 +100,94 @@ Proof.
   split; [vm_compute; reflexivity|]. split; [vm_compute; reflexivity|]. split; [vm_compute; discriminate|].
   exact (C14_locateRSDT_is_translation ex_mem 0x1000 0x105f 16 None [] 100 C14_bytes_ok_nonvacuous H1 H2 H3 H4).
 Qed.
+
+(** ---- mapACPITable ---- *)
+Definition idev (f sz : N) : gcall := GCall "identityMapFn" [GNum f; GNum sz; GNum 1].
+
+(** the valid APIC table at 0x3000 (44 bytes): header mapped (36 bytes), then the whole table, checksum fine *)
+Example C14_trans_map_good :
+  go_acpi_mapACPITable 100 w0 0x3000 ld (T.o_idmap nofail) =
+  GOk (mk_go_acpi_world [idev 3 44; idev 3 36], (0x3000, 36, None)).
+Proof. vm_compute. reflexivity. Qed.
+
+(** the corrupted SSDT at 0x3100: the header pointer is still returned, with errTableChecksumMismatch *)
+Example C14_trans_map_mismatch :
+  go_acpi_mapACPITable 100 w0 0x3100 ld (T.o_idmap nofail) =
+  GOk (mk_go_acpi_world [idev 3 36; idev 3 36], (0x3100, 36, Some "errTableChecksumMismatch"%string)).
+Proof. vm_compute. reflexivity. Qed.
+
+(** identityMapFn failing at its second call: nil header, the seam's error, no checksum *)
+Example C14_trans_map_seam_error :
+  go_acpi_mapACPITable 100 w0 0x3000 ld (T.o_idmap (fun k => k =? 1)) =
+  GOk (mk_go_acpi_world [idev 3 44; idev 3 36], (0, 36, Some "errMap"%string)).
+Proof. vm_compute. reflexivity. Qed.
+
+(** a pointer into nowhere: reading header.Length faults *)
+Example C14_trans_map_stray : go_acpi_mapACPITable 100 w0 0x9000 ld (T.o_idmap nofail) = GPanic.
+Proof. vm_compute. reflexivity. Qed.
+
+Example C14_mapACPITable_trans_nonvacuous :
+  bytes_ok ex_mem /\ 0x3000 < two64 /\ sk (mkSeam 0 []) = T.n_idmap [] /\ (N.to_nat two32 <= N.to_nat two32)%nat /\
+  go_acpi_mapACPITable (N.to_nat two32) w0 0x3000 ld (T.o_idmap nofail) =
+  T.map_result [] (mkSeam 0 []) (mapACPITable ex_mem nofail (mkSeam 0 []) 0x3000).
+Proof.
+  assert (H1 : 0x3000 < two64) by (unfold two64; lia).
+  split; [exact C14_bytes_ok_nonvacuous|]. split; [exact H1|]. split; [reflexivity|]. split; [apply le_n|].
+  exact (C14_mapACPITable_is_translation ex_mem nofail (mkSeam 0 []) [] 0x3000 (N.to_nat two32)
+           C14_bytes_ok_nonvacuous H1 eq_refl (le_n _)).
+Qed.
+
+(** ---- enumerateTables ---- *)
+(** result and the model state the final trace stands for *)
+Definition run_enum (fuel : nat) (fail : N -> bool) (rsdt : N) (x : bool) : option (option string * state) :=
+  match go_acpi_acpiDriver_enumerateTables fuel w0 rsdt x ld (T.o_idmap fail) with
+  | GOk (w, e) => Some (e, T.abs (f_world_trace w))
+  | _ => None
+  end.
+
+(** the XSDT at 0x2000 (8-byte entries: APIC, SSDT - corrupted -, FACP with its DSDT): the translated function makes
+    exactly the model's ten identityMapFn calls, reports the SSDT once, registers APIC, FACP and DSDT *)
+Example C14_trans_enum_run : run_enum 200 nofail 0x2000 true = Some (None, ex_state).
+Proof. vm_compute. reflexivity. Qed.
+
+(** the trace itself, most recent call first (the model keeps the three kinds of events apart; the translation interleaves them) *)
+Example C14_trans_enum_trace :
+  match go_acpi_acpiDriver_enumerateTables 200 w0 0x2000 true ld (T.o_idmap nofail) with
+  | GOk (w, _) => map (fun c => match c with GCall n _ => n end) (f_world_trace w)
+  | _ => []
+  end =
+  ["tableMap.set"; "identityMapFn"; "identityMapFn"; "tableMap.set"; "identityMapFn"; "identityMapFn";
+   "Fprintf"; "identityMapFn"; "identityMapFn"; "tableMap.set"; "identityMapFn"; "identityMapFn";
+   "tableMap.make"; "identityMapFn"; "identityMapFn"]%string.
+Proof. vm_compute. reflexivity. Qed.
+
+(** identityMapFn failing at its 5th call (the header of the SSDT): the seam's error, and the state at the abort is the model's *)
+Example C14_trans_enum_seam_failure :
+  run_enum 200 (fun k => k =? 4) 0x2000 true =
+  Some (Some "errMap"%string, fst (enumerateTables ex_mem (fun k => k =? 4) 0x2000 true)).
+Proof. vm_compute. reflexivity. Qed.
+
+(** a corrupted root table (the SSDT taken as root): errTableChecksumMismatch, nothing registered *)
+Example C14_trans_enum_bad_root :
+  match run_enum 200 nofail 0x3100 true with Some (e, s) => Some (e, st_tmap s) | None => None end =
+  Some (Some "errTableChecksumMismatch"%string, []).
+Proof. vm_compute. reflexivity. Qed.
+
+(** the same root table read with 4-byte entries: the second entry is the null upper half of the first pointer: a stray read *)
+Example C14_trans_enum_wrong_width : run_enum 200 nofail 0x2000 false = None.
+Proof. vm_compute. reflexivity. Qed.
+Example C14_trans_enum_wrong_width_model : exists a, snd (enumerateTables ex_mem nofail 0x2000 false) = IStray a.
+Proof. eexists. vm_compute. reflexivity. Qed.
+
+(** the hypotheses of C14_enumerateTables_is_translation hold here; the theorem gives the model's state for the trace *)
+Example C14_enumerateTables_trans_nonvacuous :
+  bytes_ok ex_mem /\ 0x2000 < two64 /\ (N.to_nat two32 <= N.to_nat two32)%nat /\
+  exists tr, go_acpi_acpiDriver_enumerateTables (N.to_nat two32) w0 0x2000 true ld (T.o_idmap nofail) = GOk (mk_go_acpi_world tr, None) /\
+             T.abs tr = ex_state.
+Proof.
+  assert (H1 : 0x2000 < two64) by (unfold two64; lia).
+  split; [exact C14_bytes_ok_nonvacuous|]. split; [exact H1|]. split; [apply le_n|].
+  pose proof (C14_enumerateTables_is_translation ex_mem nofail 0x2000 true (N.to_nat two32) C14_bytes_ok_nonvacuous H1 (le_n _)) as H.
+  assert (He : enumerateTables ex_mem nofail 0x2000 true = (ex_state, IOk)) by (vm_compute; reflexivity).
+  rewrite He in H. exact H.
+Qed.
